@@ -55,6 +55,31 @@ func NewPair(prog *hast.Program, scripts []string, o PairOpts, garbage *core.Ran
 		mcmds[name] = func(a []model.Val) error { p.MLog.Add("<<" + name + " " + mon.FmtArgs(a) + ">>"); return nil }
 		rcmds[name] = func(a []model.Val) error { p.RLog.Add("<<" + name + " " + mon.FmtArgs(a) + ">>"); return nil }
 	}
+	// bump(): a host function with a side effect on the variable store (it increments $cnt through the
+	// store and returns the new value), so that the ORDER in which operands and arguments are evaluated
+	// is observable even when no other function is involved
+	mfuncs["bump"] = func(a []model.Val) (model.Val, bool, error) {
+		nv := model.N(p.M.Vars["cnt"].N + 1)
+		p.M.Vars["cnt"] = nv
+		p.MLog.Add("bump()=" + nv.String())
+		return nv, true, nil
+	}
+	rfuncs["bump"] = func(a []model.Val) (model.Val, bool, error) {
+		cur := 0.0
+		if p.Rec != nil {
+			cur = p.Rec.Vals()["cnt"].N
+		} else if v, ok := p.Def.GetValue("cnt"); ok && v.Number != nil {
+			cur = *v.Number
+		}
+		nv := model.N(cur + 1)
+		if p.Rec != nil {
+			p.Rec.HostSet("cnt", nv)
+		} else {
+			p.Def.SetNumberValue("cnt", nv.N)
+		}
+		p.RLog.Add("bump()=" + nv.String())
+		return nv, true, nil
+	}
 	host := &model.Host{Funcs: mfuncs, Cmds: mcmds}
 	p.M = model.New(prog, host, o.Pre)
 	var st variable.Storer
